@@ -160,11 +160,14 @@ def run_case(case):
                             # compare within each context row
                             for k in range(sb.shape[0]):
                                 rowflat = sb[k].reshape(sb.shape[1], -1)
+                                # overflowed draws (LogTanh's inverse is exp(y / 0.013) for cut 3.5) are all "equal to inf"
+                                rowflat = rowflat[torch.isfinite(rowflat).all(1)]
                                 if rowflat.shape[0] > 1 and len(torch.unique(rowflat, dim=0)) < rowflat.shape[0]:
                                     r.viol("duplicated_draws", "%s.sample with batch_size repeats draws" % label,
                                            num_samples=n, batch_size=b, **det)
                                     break
-                        elif flat.shape[0] > 1 and len(torch.unique(flat, dim=0)) < flat.shape[0]:
+                        elif int(torch.isfinite(flat).all(1).sum()) > 1 and \
+                                len(torch.unique(flat[torch.isfinite(flat).all(1)], dim=0)) < int(torch.isfinite(flat).all(1).sum()):
                             r.viol("duplicated_draws", "%s.sample with batch_size repeats draws" % label, num_samples=n,
                                    batch_size=b, **det)
             # law unchanged by batching (coarse two-sample test on the first coordinate; alpha ~ 1e-9)
